@@ -3,6 +3,7 @@ package cache
 import (
 	"context"
 	"errors"
+	"math"
 	"math/rand"
 	"runtime"
 	"runtime/debug"
@@ -260,7 +261,7 @@ func (c *Trait) PrepareRead(ctx context.Context, cacheEntry *TraitEntry, found b
 
 func (c *Trait) expireAt(ctx context.Context) (time.Duration, int64) {
 	if ttl := c.TTL(ctx); ttl != 0 {
-		return ttl, ts(time.Now().Add(ttl))
+		return ttl, expireTS(ts(time.Now()), ttl)
 	}
 
 	return 0, 0
@@ -278,7 +279,7 @@ func (c *Trait) TTL(ctx context.Context) time.Duration {
 	}
 
 	if c.Config.ExpirationJitter > 0 {
-		ttl += time.Duration(float64(ttl) * c.Config.ExpirationJitter * (rand.Float64() - 0.5)) //nolint:gosec
+		ttl = addTTL(ttl, time.Duration(float64(ttl)*c.Config.ExpirationJitter*(rand.Float64()-0.5))) //nolint:gosec
 
 		// Zero means "no expiration" for the caller, a ttl that was jittered down to zero is an expired one.
 		if ttl == 0 {
@@ -417,6 +418,28 @@ func (e errExpired) ExpiredAt() time.Time {
 
 func (e errExpired) Is(err error) bool {
 	return errors.Is(err, ErrExpired)
+}
+
+// expireTS adds ttl to a timestamp, a result that can not be represented is replaced with the latest timestamp.
+func expireTS(now int64, ttl time.Duration) int64 {
+	if ttl > 0 && now > math.MaxInt64-int64(ttl) {
+		return math.MaxInt64
+	}
+
+	return now + int64(ttl)
+}
+
+// addTTL adds jitter to ttl without overflow.
+func addTTL(ttl, jitter time.Duration) time.Duration {
+	if jitter > 0 && ttl > math.MaxInt64-jitter {
+		return math.MaxInt64
+	}
+
+	if jitter < 0 && ttl < math.MinInt64-jitter {
+		return math.MinInt64
+	}
+
+	return ttl + jitter
 }
 
 func ts(t time.Time) int64 {
